@@ -437,6 +437,15 @@ func (s Server) Serve(c context.Context, conn network.Conn) (err error) {
 
 		// Release the zeroCopyReader before flush to prevent data race
 		if zr != nil {
+			// A body that was taken out of the read buffers without a copy lives in memory
+			// that goes back to the pool here and may hold another connection's bytes by
+			// the time the tracers, which look at the request in Finish, are called: with
+			// tracers the request keeps a copy of its own.
+			if s.EnableTrace && !ctx.Request.IsBodyStream() && !ctx.Request.HasMultipartForm() {
+				if b := ctx.Request.BodyBytes(); len(b) > 0 {
+					ctx.Request.SetBody(b)
+				}
+			}
 			zr.Release() //nolint:errcheck
 			zr = nil
 		}
